@@ -403,8 +403,8 @@ def obligations(tier, seed):
                 if q and n == 4 and cname not in ("free", "eof"):
                     continue
                 pre = [f"n == {n}", f"start == {start}"] + ([cpre.format(v="b0")] if n > 2 else [])
-                if n == 5 and cname not in ("link", "res"):
-                    continue                      # 5-sector tables: only the two classes of word 0 that start a chain / a directory run (wall-time budget)
+                if n == 5 and (cname != "link" or start not in (0, 4)):
+                    continue                      # 5-sector tables: word 0 a link, chain entered at the first / last sector (wall-time budget)
                 if n == 5:
                     for c1name, c1pre in AK_CLASSES:
                         obs.append(_ob(f"C07.akai/n={n}/start={start}/w0={cname}/w1={c1name}", "h_akai", pre + [c1pre.format(v="b1")], T,
@@ -414,7 +414,9 @@ def obligations(tier, seed):
                                    f"{n} raw 16-bit SAT words", f"tables of {n} sectors, every word in 0..0xFFFF, fuel n^2+2n+8 / n+2"))
     for m in ((2, 3) if q else (2, 3, 4)):
         for start in range(2, m + 2):
-            for top in range(0, 2 if q else 3):
+            if m == 4 and start not in (2, 5):
+                continue                          # 4-entry tables: chain entered at the first / last entry (wall-time budget)
+            for top in range(0, 2 if (q or m == 4) else 3):
                 for cname, cpre in RO_CLASSES:
                     if m == 2 and cname != "free":
                         continue
@@ -442,6 +444,8 @@ def obligations(tier, seed):
                            "indices (0..6), probed entry", f"{cnt} indices into a table of {size} entries"))
     nb = 3 if q else 4
     for start in range(nb):
+        if nb == 4 and start not in (0, 3):
+            continue
         for cname, cpre in AK_CLASSES:
             for c1name, c1pre in (AK_CLASSES if nb == 4 else [(None, None)]):          # n=4: split by the class of word 1 as well (one obligation did not finish otherwise)
                 obs.append(_ob(f"C07.bytes/n={nb}/start={start}/w0={cname}" + (f"/w1={c1name}" if c1name else ""), "h_bytes",
